@@ -1,0 +1,66 @@
+//go:build verif
+
+// Contracts for the tvc verifier (/verif). Comment-only: with the `verif` tag off this file does not exist,
+// with it on it adds no code. Syntax: /verif/DESIGN.md appendix A.
+
+package client
+
+//@ for C19
+
+//@ # A limit vector as getInstanceType produces it from a sane DescribeInstanceTypes answer:
+//@ # at least the primary adapter, non-negative clamped counts, everything far below overflow.
+//@ pure func validLimits(l *Limits) bool = l != nil && 1 <= l.Adapters && l.Adapters < 1048576 && 1 <= l.IPv4PerAdapter && l.IPv4PerAdapter < 1048576 && 0 <= l.IPv6PerAdapter && l.IPv6PerAdapter < 1048576 && 0 <= l.MemberAdapterLimit && l.MemberAdapterLimit < 1048576 && 0 <= l.MaxMemberAdapterLimit && l.MaxMemberAdapterLimit < 1048576 && 0 <= l.ERdmaAdapters && l.ERdmaAdapters < 1048576
+
+//@ func getInstanceType
+//@   requires instanceTypeInfo != nil
+//@   panics
+//@   ensures fresh(result)
+//@   ensures result.Adapters == instanceTypeInfo.EniQuantity
+//@   ensures result.IPv4PerAdapter == max(instanceTypeInfo.EniPrivateIpAddressQuantity, 0)
+//@   ensures result.IPv6PerAdapter == max(instanceTypeInfo.EniIpv6AddressQuantity, 0)
+//@   ensures result.ERdmaAdapters == max(instanceTypeInfo.EriQuantity, 0)
+//@   ensures result.MemberAdapterLimit >= 0 && result.MaxMemberAdapterLimit >= 0
+//@   ensures instanceTypeInfo.EniTrunkSupported ==> result.MemberAdapterLimit == max(instanceTypeInfo.EniTotalQuantity - instanceTypeInfo.EniQuantity, 0)
+//@   # features the instance type does not support are reported as zero, not advertised
+//@   ensures !instanceTypeInfo.EniTrunkSupported ==> result.MemberAdapterLimit == 0 && result.MaxMemberAdapterLimit == 0
+
+//@ func Limits.SupportIPv6
+//@   requires l != nil
+//@   modifies nothing
+//@   ensures result == (l.IPv6PerAdapter > 0)
+
+//@ func Limits.SupportMultiIPIPv6
+//@   requires l != nil
+//@   modifies nothing
+//@   ensures result == (l.IPv6PerAdapter == l.IPv4PerAdapter)
+
+//@ func Limits.TrunkPod
+//@   requires l != nil
+//@   modifies nothing
+//@   ensures result == l.MemberAdapterLimit
+
+//@ func Limits.MultiIPPod
+//@   requires validLimits(l)
+//@   arith
+//@   modifies nothing
+//@   ensures result == (l.Adapters - 1) * l.IPv4PerAdapter
+
+//@ func Limits.ExclusiveENIPod
+//@   requires validLimits(l)
+//@   arith
+//@   modifies nothing
+//@   ensures result == l.Adapters - 1
+
+//@ # number of RDMA interfaces the daemon reserves (the documented policy: none on instances with <= 2 adapters,
+//@ # at most 2 on instances with >= 8 adapters, otherwise at most 1; never more than the instance type offers)
+//@ pure func erdmaRes(l *Limits) int = ite(l.ERdmaAdapters <= 0 || l.Adapters <= 2, 0, ite(l.Adapters >= 8, min(2, l.ERdmaAdapters), min(1, l.ERdmaAdapters)))
+
+//@ func Limits.ERDMARes
+//@   requires l != nil
+//@   modifies nothing
+//@   ensures result == erdmaRes(l)
+//@   ensures 0 <= result && result <= 2
+//@   ensures l.ERdmaAdapters >= 0 ==> result <= l.ERdmaAdapters
+//@   ensures l.Adapters <= 2 ==> result == 0
+//@   # an RDMA interface is only counted when secondary slots remain for ordinary ones
+//@   ensures result > 0 ==> result <= l.Adapters - 2
